@@ -154,8 +154,8 @@ func verifyStore(acc consensus.ElementAccumulator, st *sim.Store) (int, error) {
 
 type updateStats struct {
 	updates, compared, excluded, proofs int
-	withUpdatedLeaves, refreshed       int // fully compared updates: with rewritten leaves / that changed a held proof
-	reverts                            int
+	withUpdatedLeaves, refreshed        int // fully compared updates: with rewritten leaves / that changed a held proof
+	reverts                             int
 }
 
 type update interface {
